@@ -172,9 +172,9 @@ func (w *World) Children(v *V) []*V {
 			if cv.Kind != "post" {
 				return Fail
 			}
-			// the comment's resolved parent must be this very post
+			// the comment's resolved parent must be this very post (a parent embedded without an id has no identifier to compare)
 			par := w.Resolve(n.Parent, n.Host)
-			if par == nil || par.ID != p.ID {
+			if par == nil || n.Parent.Mode == "anon" || par.ID != p.ID {
 				return Fail
 			}
 			return cv
@@ -187,7 +187,7 @@ func (w *World) Children(v *V) []*V {
 				return Fail
 			}
 			av := w.activityView(n)
-			if av.Kind != "activity" || av.ActorV.Kind != "actor" || av.ActorV.N.ID != a.ID {
+			if av.Kind != "activity" || av.ActorV.Kind != "actor" || av.ActorV.N.ID != a.ID || (n.Actor != nil && n.Actor.Mode == "anon") {
 				return Fail
 			}
 			return av
